@@ -70,6 +70,16 @@ Theorem writer_output_validates_again_builtin_checks : forall (c : cid cstate) k
     /\ rs_rej sf = 0.
 Proof. exact builtin_writer_readback_lemma. Qed.
 
+(* ... and the same when the target's encoding refuses some rows (write_all_enc): rows it refuses have been seen by the
+   writer's checks but are not in the output; the output still reads back without a single rejection *)
+Theorem writer_output_validates_again_whatever_the_encoding : forall enc (c : cid cstate) ks rows sts_w sts_r wf es,
+  c_checks c = map check_of ks ->
+  write_all_enc enc c (writer_init c sts_w) rows = (wf, es) ->
+  exists sf evs,
+    reader_rows c MYield None sts_r (w_rows wf) false = (sf, map ORow (skipn (c_header c) (w_rows wf)), None, evs)
+    /\ rs_rej sf = 0.
+Proof. exact builtin_writer_readback_enc_lemma. Qed.
+
 (* the delimited stream in between: the text the delimited row writer produces for the emitted rows parses back into
    exactly those rows (C12), so the two statements above apply to the rows a Reader gets from the written file *)
 Theorem delimited_writer_stream_reads_back : forall (CS : Type) (c : cid CS) rows sts_w wf es d out,
